@@ -1,4 +1,4 @@
-import PysnarkModel.Lemmas.PyTotalOps2
+import PysnarkModel.Lemmas.PyTotalAssert
 /-!
 # C05 at program level, totality: constructors, unary operators, methods, selection
 -/
@@ -115,10 +115,93 @@ theorem ifElse_total {x : LinComb} {t f : Val} (ht : t.isSc = true) (hf : f.isSc
   exact ⟨_, h3⟩
 
 theorem callMeth_total {m : Meth} {self : Val} {args : List Val} {pself : PyVal} {pargs : List PyVal}
-    {pv : PyVal} (hg : s.guard = none) (hP : PrimeP s) (hs : ValRef self pself) (ha : ValRefL args pargs)
+    {pv : PyVal} (hk : PyOk s) (hP : PrimeP s) (hs : ValRef self pself) (ha : ValRefL args pargs)
     (hgap : pyGapCall m self args = none) (hpy : pyCall s.bitlength m pself pargs = .ok pv)
     (hd : pyDomCall s.p s.bitlength m pself pargs = true) : Ok (callMeth m self args) s := by
-  cases m <;> simp only [pyGapCall, reduceCtorEq] at hgap
+  have hg := hk.guard
+  by_cases hm : m.isCmpAssert = true
+  · exact callAssertCmp_total hm hk hP hs ha hgap hd
+  cases m <;> simp only [Meth.isCmpAssert, not_true_eq_false, Bool.false_eq_true, not_false_eq_true] at hm <;>
+    simp only [pyGapCall, reduceCtorEq] at hgap
+  case assertPositive =>
+    cases self <;> simp only [reduceCtorEq] at hgap
+    · rename_i x
+      split at hgap
+      · rename_i hw
+        rw [valRef_lc_iff.mp hs] at hd
+        simp only [pyDomCall, PyVal.num?_int] at hd
+        cases hpw : pyWidth s.bitlength pargs with
+        | none => simp [hpw] at hd
+        | some w =>
+          simp only [hpw, Bool.and_eq_true, decide_eq_true_eq, inBits_iff] at hd
+          obtain ⟨n, hn, hnw⟩ := argNat_total (s := s) hw ha hpw hd.1
+          simp only [callMeth]
+          refine Ok.bind hn ?_
+          obtain ⟨s', h', -⟩ := assertPositive_total (x := x) (bits := n) hg hd.2.1 (by rw [hnw]; exact hd.2.2)
+          exact Ok.bind h' (Ok.pure _ _)
+      · cases hgap
+    · rename_i x
+      split at hgap
+      · rename_i he
+        have hnil : args = [] := by cases args <;> simp_all
+        subst hnil
+        rw [valRefL_nil_iff.mp ha, (valRef_lcb_iff.mp hs).1] at hd
+        simp only [pyDomCall, PyVal.num?_bool, pyWidth, Bool.and_eq_true, decide_eq_true_eq, inBits_iff] at hd
+        simp only [callMeth, List.isEmpty_nil, if_true]
+        obtain ⟨s', h', -⟩ := assertPositive_total (x := x) (bits := none) hg hd.2.1
+          (by simpa only [Option.getD_none] using hd.2.2)
+        exact Ok.bind h' (Ok.pure _ _)
+      · cases hgap
+  case assertZero =>
+    cases self <;> simp only [Val.isSecretSc, Bool.false_eq_true, if_false, reduceCtorEq] at hgap
+    · rename_i x
+      rw [valRef_lc_iff.mp hs] at hd
+      simp only [pyDomCall, PyVal.num?_int, decide_eq_true_eq] at hd
+      simp only [callMeth]
+      obtain ⟨s', h', -⟩ := assertZero_total (x := x) hg hd
+      exact Ok.bind h' (Ok.pure _ _)
+    · rename_i x
+      rw [(valRef_lcb_iff.mp hs).1] at hd
+      simp only [pyDomCall, PyVal.num?_bool, decide_eq_true_eq] at hd
+      simp only [callMeth]
+      obtain ⟨s', h', -⟩ := assertZero_total (x := x) hg hd
+      exact Ok.bind h' (Ok.pure _ _)
+  case assertNonzero =>
+    cases self <;> simp only [Val.isSecretSc, Bool.false_eq_true, if_false, reduceCtorEq] at hgap
+    · rename_i x
+      rw [valRef_lc_iff.mp hs] at hd
+      simp only [pyDomCall, PyVal.num?_int, Bool.and_eq_true, decide_eq_true_eq] at hd
+      simp only [callMeth]
+      obtain ⟨s', h', -⟩ := assertNonzero_total (x := x) hg hP hd.2
+      exact Ok.bind h' (Ok.pure _ _)
+    · rename_i x
+      rw [(valRef_lcb_iff.mp hs).1] at hd
+      simp only [pyDomCall, PyVal.num?_bool, Bool.and_eq_true, decide_eq_true_eq] at hd
+      simp only [callMeth]
+      obtain ⟨s', h', -⟩ := assertNonzero_total (x := x) hg hP hd.2
+      exact Ok.bind h' (Ok.pure _ _)
+  case assertRange =>
+    split at hgap
+    · rename_i x lo hi
+      split at hgap
+      · rename_i hlh
+        simp only [Bool.and_eq_true] at hlh
+        obtain ⟨plo, ws, rfl, hvlo, hws⟩ := valRefL_cons_iff.mp ha
+        obtain ⟨phi, ws', rfl, hvhi, hws'⟩ := valRefL_cons_iff.mp hws
+        rw [valRefL_nil_iff.mp hws', valRef_lc_iff.mp hs] at hd
+        obtain ⟨nlo, -, -⟩ := hvlo.sc (isIntLike_sc hlh.1)
+        obtain ⟨nhi, -, -⟩ := hvhi.sc (isIntLike_sc hlh.2)
+        simp only [pyDomCall, PyVal.num?_int, nlo, nhi, Bool.and_eq_true, decide_eq_true_eq] at hd
+        obtain ⟨l, hl, vl⟩ := ensurelc_total hk hlh.1
+        obtain ⟨h, hh, vh⟩ := ensurelc_total hk hlh.2
+        simp only [callMeth]
+        refine Ok.bind hl (Ok.bind hh ?_)
+        obtain ⟨s', h', -⟩ := assertRange_total (x := x) (lo := l) (hi := h) hg (by rw [vl]; exact hd.1.1.1)
+          (by rw [vh]; exact hd.1.1.2) (by rw [vl]; exact fits_lt (by omega) hd.1.2)
+          (by rw [vh]; exact fits_lt (by omega) hd.2)
+        exact Ok.bind h' (Ok.pure _ _)
+      · cases hgap
+    · cases hgap
   case val =>
     cases self <;> simp only [Val.isSecretSc, Bool.false_eq_true, if_false, reduceCtorEq] at hgap <;>
       simp only [callMeth] <;> exact Ok.bind' (valL_total hg) (fun _ _ _ => Ok.pure _ _)
